@@ -444,6 +444,16 @@ func harmonise(raw json.RawMessage, c *ucase) {
 			overflow = true
 		}
 	}
+	// the sampling period is a quantity in its own unit as well: harmonising relabels AND rescales it
+	for i, p := range ps {
+		f, _ := measurement.Scale(1, p.PeriodType.Unit, spellOut(finest))
+		got := new(big.Rat).Mul(new(big.Rat).SetFloat64(f*float64(p.Period)), factor(finest))
+		exact := new(big.Rat).Quo(factor(us[i]), factor(finest))
+		if got.Cmp(factor(us[i])) != 0 && exact.Cmp(new(big.Rat).SetInt64(math.MaxInt64)) <= 0 {
+			run.Violate("harmonise", "period-not-preserved", fmt.Sprintf("units (%s, %s, %s): the period of profile %d was 1 %s and is now %d %s", us[0].Name, us[1].Name, us[2].Name, i, spellOut(us[i]), p.Period, p.PeriodType.Unit), raw, nil)
+			break
+		}
+	}
 	if sum.Cmp(total) != 0 && overflow {
 		run.Violate("harmonise", "harmonise-overflow:int64", fmt.Sprintf("units (%s, %s, %s): the value in the finest unit exceeds int64; physical total %s became %s without an error", us[0].Name, us[1].Name, us[2].Name, total.FloatString(3), sum.FloatString(3)), raw, nil)
 	} else if sum.Cmp(total) != 0 {
@@ -458,7 +468,8 @@ func reportMinimumUnit() {
 	loc := func(name string, rel int64) vlib.ALoc {
 		return vlib.ALoc{Map: m, Rel: rel, Lines: []vlib.ALine{{Fn: vlib.AFn{Name: name, Sys: name, File: name + ".c"}, Line: 1}}}
 	}
-	for _, sign := range []int64{1, -1} {
+	for _, signdiv := range [][2]int64{{1, 1}, {-1, 1}, {1, 1000}, {-1, 1000}, {1, 1000000}} {
+		sign, div := signdiv[0], signdiv[1]
 		for _, unit := range []string{"nanoseconds", "bytes"} {
 			big, small := int64(10_000_000_000), int64(2_000_000)
 			if unit == "bytes" {
@@ -471,9 +482,10 @@ func reportMinimumUnit() {
 				{Locs: []vlib.ALoc{loc("leafc", 3), loc("mid", 4)}, Vals: []int64{sign * (big/2 - small)}},
 			}}
 			p := vlib.NewConc(0).Profile(ap)
-			res := vdrv.Run(vdrv.Opts{Args: []string{"-top", "-functions", "-flat", "-nodefraction=0", "-nodecount=0", "-output=out", "src"},
+			// -divide_by shifts every figure of the report by the same factor: the unit is chosen for the divided figures
+			res := vdrv.Run(vdrv.Opts{Args: []string{"-top", "-functions", "-flat", "-nodefraction=0", "-nodecount=0", fmt.Sprintf("-divide_by=%d", div), "-output=out", "src"},
 				Fetch: func(string) (*profile.Profile, error) { return p.Copy(), nil }})
-			run.Count(fmt.Sprintf("report-minimum|%s|%d", unit, sign))
+			run.Count(fmt.Sprintf("report-minimum|%s|%d|%d", unit, sign, div))
 			if res.Err != nil || res.Panic != nil {
 				run.Violate("report-unit", "report-unit-error", fmt.Sprint(res.Err, res.Panic), nil, nil)
 				continue
@@ -481,7 +493,7 @@ func reportMinimumUnit() {
 			for _, l := range strings.Split(res.File("out"), "\n") {
 				f := strings.Fields(l)
 				if len(f) == 6 && f[5] == "mid" {
-					if f[3] == "0" {
+					if f[3] == "0" && small/div >= 1 { // (below one base unit after the division nothing finer exists)
 						run.Violate("report-unit", "minimum-unit-too-coarse", fmt.Sprintf("entry mid has cum %d %s, the smallest magnitude of the report, and is printed as 0:\n%s", -sign*small, unit, res.File("out")), nil, nil)
 					}
 				}
